@@ -60,6 +60,12 @@ theorem exForm_posts :
     browserPost (seenOf Tables.current freshGen.ctx) (renderForm [] exForm) = .ok (formPairs [] exForm) :=
   form_roundtrip_fresh exForm exForm_ok
 
+/-- the same with every tag call made through `prepareTag`, as the runner makes them -/
+theorem exForm_posts_generator :
+    browserPost (seenVia Tables.current Flatland.Generated.C11.staticAttributeOrder freshGen) (renderForm [] exForm) =
+      .ok (formPairs [] exForm) :=
+  form_roundtrip_fresh_generator exForm exForm_ok
+
 /-- and `flatten()` of the same tree emits those twelve plus the two `''` pairs of the unchecked boxes -/
 theorem exForm_flatten :
     (Flatland.Flat.flattenNode usep (embed exForm)).Perm (formPairs [] exForm ++ uncheckedPairs [] exForm) :=
